@@ -14,7 +14,7 @@ import time
 
 ROOT = os.path.dirname(os.path.dirname(os.path.abspath(__file__)))
 REPO = os.environ.get("VERIF_REPO", "/repo")
-BUILD = os.path.join(ROOT, "build")
+BUILD = os.environ.get("VERIF_BUILD", os.path.join(ROOT, "build"))
 JOBS = int(os.environ.get("VERIF_JOBS", "16"))
 
 SAN = "-fsanitize=address,undefined -fno-sanitize-recover=all"
@@ -88,7 +88,7 @@ def link_cmd(unit, fl, obj, exe):
 
 def ccache_env():
     e = dict(os.environ)
-    e["CCACHE_DIR"] = os.path.join(BUILD, "ccache")
+    e["CCACHE_DIR"] = os.path.join(ROOT, "build", "ccache")
     e["CCACHE_MAXSIZE"] = "8G"
     e["CCACHE_SLOPPINESS"] = "time_macros"
     e.pop("CCACHE_DISABLE", None)
@@ -301,7 +301,8 @@ def run_check(prop, tier, seed, P, only_units=None, quiet=False):
         bykey.setdefault(r["key"], []).append(r)
     known_hit = {}
     violations = []
-    repdir = os.path.join(ROOT, "evidence", "replays")
+    evdir = os.environ.get("VERIF_EVIDENCE_DIR", os.path.join(ROOT, "evidence"))  # selftest writes elsewhere
+    repdir = os.path.join(evdir, "replays")
     os.makedirs(repdir, exist_ok=True)
     for key in sorted(bykey):
         rs = bykey[key]
@@ -326,7 +327,7 @@ def run_check(prop, tier, seed, P, only_units=None, quiet=False):
     for key, rs in violations:
         r = rs[0]
         h = hashlib.sha1(key.encode()).hexdigest()[:10]
-        rp = os.path.join("evidence", "replays", f"{prop}-{h}.json")
+        rp = os.path.join(os.path.relpath(evdir, ROOT), "replays", f"{prop}-{h}.json")
         u = next((x for x in units if x.name == r.get("unit")), None)
         rep = dict(property=prop, key=key, unit=r.get("unit"), flavour=r.get("flavour"), seed=seed, tier=tier,
                    case=r.get("case"), record={k: v for k, v in r.items() if not k.startswith("_")},
@@ -385,8 +386,8 @@ def run_check(prop, tier, seed, P, only_units=None, quiet=False):
         ev["coverage"]["inconclusive"] = inconclusive[:20]
     if P.get("extra_evidence"):
         ev["coverage"].update(P["extra_evidence"](dict(sites=sites, repo=REPO)))
-    os.makedirs(os.path.join(ROOT, "evidence"), exist_ok=True)
-    with open(os.path.join(ROOT, "evidence", prop + ".json"), "w") as fh:
+    os.makedirs(evdir, exist_ok=True)
+    with open(os.path.join(evdir, prop + ".json"), "w") as fh:
         json.dump(ev, fh, indent=1)
 
     # ---- verdict
